@@ -64,7 +64,26 @@ func c10Check(c c10Case) string {
 		return ""
 	}
 	t0 := time.Now()
-	res, ld, err := engine.RunInproc(prog, c.Config, engine.Options{Sequential: true})
+	type out struct {
+		res *engine.Result
+		ld  *engine.Loaded
+		err error
+	}
+	ch := make(chan out, 1)
+	go func() {
+		r, l, e := engine.RunInproc(prog, c.Config, engine.Options{Sequential: true})
+		ch <- out{r, l, e}
+	}()
+	var res *engine.Result
+	var ld *engine.Loaded
+	var err error
+	select {
+	case o := <-ch:
+		res, ld, err = o.res, o.ld, o.err
+	case <-time.After(c10HangBound):
+		// the in-process run cannot be cancelled; confirm with a killable process
+		return c10ConfirmHang(c)
+	}
 	if err != nil {
 		return "GENERATOR-BUG load: " + err.Error()
 	}
@@ -81,6 +100,36 @@ func c10Check(c c10Case) string {
 		return fmt.Sprintf("INCONCLUSIVE slow run (%s)", d)
 	}
 	return ""
+}
+
+// c10HangBound: generated programs are analysed in a few milliseconds; a run
+// that has not finished after this long is re-run in a separate process.
+const c10HangBound = 25 * time.Second
+
+// c10ConfirmHang re-runs the case through the real binary (a process that can
+// be killed) with twice the bound. Only a second, solitary exceedance is a
+// violation; anything else is inconclusive.
+func c10ConfirmHang(c c10Case) string {
+	if engine.BinPath() == "" {
+		return "INCONCLUSIVE in-process run exceeded the bound and no binary is available to confirm"
+	}
+	dir, err := engine.Scratch()
+	if err != nil {
+		return "INCONCLUSIVE " + err.Error()
+	}
+	defer engine.RmScratch(dir)
+	if err := engine.WriteToDisk(enginePkgs(c.Pkgs, c.Sources), dir); err != nil {
+		return "INCONCLUSIVE " + err.Error()
+	}
+	var flags []string
+	if c.Config.ScanTests {
+		flags = append(flags, "--config.scan-tests")
+	}
+	pr := engine.RunBinaryTimeout(dir, 2*c10HangBound, flags, nil, "./...")
+	if pr.TimedOut {
+		return fmt.Sprintf("HANG analysis does not terminate: in-process run exceeded %s and the standalone binary, run alone, was killed after %s", c10HangBound, 2*c10HangBound)
+	}
+	return "INCONCLUSIVE in-process run exceeded the bound but the binary finished in " + pr.Wall.String()
 }
 
 func init() {
@@ -172,6 +221,18 @@ type ZInt int
 
 // @immutable
 type ZAlias = ZS2
+
+// aliases of predeclared types (no package)
+type ZFailure = error
+
+type ZKeyed = comparable
+
+type ZAny = any
+
+func zaliases[K ZKeyed](k K, e ZFailure, a ZAny) (ZFailure, ZAny) {
+	var f ZFailure = e
+	return f, a
+}
 `,
 	`package {{PKG}}
 
@@ -246,6 +307,15 @@ done:
 	for _, p.B = range []int{1} {
 	}
 	p.E.X, p.ZEmb.Q = 1, 2
+	(p.M)["k"] = nil
+	((p.M))["k"][0] = 1
+	(*p).M["k"] = nil
+	(p.M["k"])[0] = 2
+	h := &p.M
+	(*h)["k"] = nil
+	(p).A, (*p).B = 1, 2
+	(p.A)++
+	(p.A) += 1
 	func(ZInit) {}(ZInit{})
 	defer func(z *ZInit) { z.A = 1 }(p)
 	go func() { zv4 = ZInit{} }()
@@ -326,6 +396,41 @@ func zgroups(g zg3, f func(zg1) zg2, c chan<- zg1) (r zg1, err error) {
 	return
 }
 `,
+}
+
+func init() {
+	// generated code: //line directives move the logical position of what follows
+	c10Zoo = append(c10Zoo, `package {{PKG}}
+
+// @immutable
+// @constructor NewZLine
+type ZLine struct{ n int }
+
+func NewZLine() *ZLine { return &ZLine{} }
+
+func zline(t *ZLine) {
+//line zgen.y:900
+	t.n = 1 // @ignore IMM01
+	t.n = 2
+//line zoo_line.go:5
+	t.n = 3 // @ignore IMM
+	/*line :77:3*/ t.n = 4 // @ignore ALL
+	_ = ZLine{} // @ignore CTOR01
+}
+
+//line /nonexistent/dir/other.go:1
+func zline2(t *ZLine) {
+	// @ignore IMM01
+	t.n = 5
+	t.n++ // @ignore IMM03
+	var z ZLine
+	_ = z
+}
+
+//line zgen.y:100000
+// @ignore CTOR
+var zline3 = ZLine{} // @ignore CTOR01
+`)
 }
 
 // c10CommentGen draws comment text for the skeleton's slots.
@@ -533,6 +638,13 @@ func TestC10Generated(t *testing.T) {
 		if strings.HasPrefix(why, "INCONCLUSIVE") {
 			ev.Inconclusive(id, why)
 			return
+		}
+		if strings.HasPrefix(why, "HANG") {
+			raw, _ := json.Marshal(c)
+			ev.SaveViolation(id, "hang", 0, why, Envelope{Property: id, Kind: "c10", Summary: why, Data: raw})
+			ev.Flush()
+			fmt.Println(why)
+			os.Exit(1)
 		}
 		if why != "" {
 			sz := 0
